@@ -71,3 +71,14 @@ package fs
 // after construction - and WatchData() walks it after the build has ended; a field-level lock rule would flag both.)
 //@ protect accessed-entries C20 C09: type=accessedEntries ; fields=wasPresent,allEntries ; mutex=mutex ; in=fs
 //@ protect entry-stat C20: type=Entry ; fields=kind,needStat,symlink ; mutex=mutex ; in=fs
+
+// C09 (watch mode): realFS.WatchData reads accessedEntries.allEntries == nil as "this directory was never enumerated"
+// and then only re-checks the names that were looked up individually. An enumeration (glob import, plugin watch dir)
+// must therefore always record a non-nil list, also for a directory with zero entries, or a file that later appears in
+// that directory is never noticed.
+//@ func (DirEntries).SortedKeys
+//@   arith int
+//@   prop C09
+//@   opt scenario watch_empty_dir_enumeration
+//@   site enumeration-is-recorded: store accessedEntries.allEntries requires value != nil
+//@   loop 0 invariant keys != nil
